@@ -147,6 +147,8 @@ pub fn swarm(rng: &mut Rng, profile: Profile) -> GenCfg {
             // delete / re-create cycles: two incarnations' batches on one name in the same WAL
             cfg.w[0] = 9;
             cfg.w[1] = 7;
+            // batches spanning three files exist too
+            cfg.wp = [3, 30, 20, 10, 22, 15];
             cfg.n_ops = 4 + rng.usize_below(12);
             cfg.align_permille = 500;
             cfg.w[4] = 1;
@@ -235,11 +237,13 @@ pub struct Gen {
     pub next_uid: u32,
     /// the previous op was aimed to end exactly at the end of a WAL file: follow up with an fsync-type op
     pub at_file_end: bool,
+    /// ops to issue next, in order (follow-ups of an aimed op)
+    pub plan: std::collections::VecDeque<Op>,
 }
 
 impl Gen {
     pub fn new(cfg: GenCfg, rng: Rng) -> Gen {
-        Gen { cfg, rng, next_uid: 1, at_file_end: false }
+        Gen { cfg, rng, next_uid: 1, at_file_end: false, plan: Default::default() }
     }
 
     fn uid(&mut self) -> u32 {
@@ -257,7 +261,11 @@ impl Gen {
         let existing: Vec<usize> = (0..nq).filter(|&q| d.model.queues.contains_key(&d.names[q])).collect();
         let missing: Vec<usize> = (0..nq).filter(|&q| !d.model.queues.contains_key(&d.names[q])).collect();
         if existing.is_empty() {
+            self.plan.clear();
             return Op::Create { q: *rng.pick(&missing) };
+        }
+        if let Some(op) = self.plan.pop_front() {
+            return op;
         }
         // keep the simulated disk small: when too many files are live, release the oldest data
         if d.n_files() >= cfg.max_files {
@@ -379,6 +387,30 @@ impl Gen {
                             }
                         }
                     }
+                }
+                // file-periodic batch: equal records whose serialised size (12 + len) divides the payload capacity of a
+                // whole WAL file (4 * 32761 = 2^2 * 181^2 bytes), long enough to cover at least one file entirely, then
+                // a delete_queue of *another* queue and a restart. If a file in the middle of the entry ever goes
+                // missing, what is left still parses as a batch - with a hole.
+                if cfg.profile == Profile::Batches && pos.is_none() && rng.chance(1, 30) {
+                    let l = *rng.pick(&[169u32, 350, 712]);
+                    let per_file = (4 * (BLOCK - 7)) / (12 + l as usize);
+                    let count = 2 * per_file + 2 + rng.usize_below(per_file);
+                    let other: Vec<usize> = existing.iter().copied().filter(|x| *x != q).collect();
+                    if let Some(&o) = other.first() {
+                        self.plan.push_back(Op::Delete { q: o });
+                    } else if let Some(&m) = missing.first() {
+                        self.plan.push_back(Op::Create { q: m });
+                        self.plan.push_back(Op::Delete { q: m });
+                    }
+                    self.plan.push_back(Op::Restart { policy: None });
+                    return Op::Append { q, pos: None, lens: vec![l; count], uid: self.uid() };
+                }
+                // frame-like payload: complete checksummed frames embedded every 64 bytes
+                if n >= 1 && lens[0] >= 200 && rng.chance(1, 12) {
+                    let phase = rng.below(64) as u32;
+                    let uid = self.uid() | crate::model::FRAME_LIKE | (phase << 24);
+                    return Op::Append { q, pos, lens, uid };
                 }
                 // entry-like payload whose 64-byte grid is phased so that a grid point falls on the first block boundary
                 // the entry crosses (the continuation frame's payload then starts with a well-formed entry header)
@@ -535,6 +567,7 @@ pub fn generate_opts(seed: u64, profile: Profile, buggify: bool, n_foreign: usiz
     let mut driver = Driver::new(&case);
     driver.lenient = lenient;
     driver.lenient_io = lenient_io;
+    driver.keep_obs = profile == Profile::Batches;
     let mut g = Gen::new(cfg.clone(), rng.fork(1));
     let first = Op::Restart { policy: None };
     case.ops.push(first.clone());
